@@ -15,6 +15,8 @@ def pOp : String → Option Op
   | "excess" => some .excess
   | "foreign" => some .foreign
   | "event" => some .event
+  | "writeBegin" => some .writeBegin
+  | "writeEnd" => some .writeEnd
   | _ => none
 
 def handle : List String → String
